@@ -319,13 +319,63 @@ def optrig_n07(st, op):
     return False
 
 
+def elem_repeats(e):
+    """an index list that names an index more than once"""
+    return e[0] == "l" and len(set(e[1])) < len(e[1])
+
+
+def key_repeats(key):
+    return key[0] == "region" and any(elem_repeats(e) for e in key[1])
+
+
+def optrig_n10(st, op):
+    """(repaired) sparse region assignment of a nonzero scalar through a key list that repeats an index, EMPTY receiver"""
+    return bool(_is_set(op, ("region",)) and op[2][0] == "scalar" and op[2][1] != 0 and key_repeats(op[1]) and not st[1])
+
+
+def optrig_n11(st, op):
+    """sparse region READ through a key list that repeats an index"""
+    return op[0] == "get" and key_repeats(op[1])
+
+
+def optrig_n12(st, op):
+    """(repaired) sparse region assignment of a nonzero scalar through a key list that repeats an index, receiver with stored entries"""
+    return bool(_is_set(op, ("region",)) and op[2][0] == "scalar" and op[2][1] != 0 and key_repeats(op[1]) and st[1])
+
+
+def optrig_n13(st, op):
+    """(repaired) sparse region assignment of a tensor through a key list that repeats an index"""
+    return bool(_is_set(op, ("region",)) and op[2][0] == "values" and key_repeats(op[1]))
+
+
+def optrig_n15(st, op):
+    """sparse region assignment of a sptensor through a key list that repeats an index where the value that must win (the
+    last one addressed to a position, numpy's rule on the dense side) is not the last STORED value of the operand: it is a
+    zero (not stored in the operand) after a nonzero, or the operand's stored order is not its position order"""
+    if not (_is_set(op, ("region",)) and op[2][0] == "values" and key_repeats(op[1])):
+        return False
+    v = op[3] if len(op) > 3 else None
+    v = v.get("sparse") if isinstance(v, dict) else v
+    if v in ("ctor_rev", "ctor_view", "prev", "read"):
+        return True
+    asg = _asg(st, op)
+    if asg is None:
+        return False
+    seen = {}
+    for p_, x in asg:
+        seen.setdefault(p_, []).append(x)
+    return any(xs[-1] == 0 and any(x != 0 for x in xs) for xs in seen.values())
+
+
 # input classes by finding id.  OPTRIG = the OPEN findings only (used for attribution and kept out of the unattributed streams);
 # FIXED_CLASSES = input classes of repaired defects: generated on purpose (regression streams) and never attributed.
 ALLCLASS = {"C04-N07": ("sparse", optrig_n07), "C04-N05": ("sparse", optrig_n05), "C04-N06": ("sparse", optrig_n06),
             "C04-N03": ("dense", optrig_n03), "C04-N04": ("sparse", optrig_n04), "A-13": ("sparse", optrig_a13),
             "C04-N01": ("sparse", optrig_n01), "C04-N02": ("sparse", optrig_n02), "A-14": ("sparse", optrig_a14),
-            "A-15": ("dense", optrig_a15), "A-16": ("dense", optrig_a16), "A-17": ("dense", optrig_a17)}
-OPEN_IDS = ("A-16", "C04-N04")
+            "A-15": ("dense", optrig_a15), "A-16": ("dense", optrig_a16), "A-17": ("dense", optrig_a17),
+            "C04-N10": ("sparse", optrig_n10), "C04-N11": ("sparse", optrig_n11), "C04-N12": ("sparse", optrig_n12),
+            "C04-N13": ("sparse", optrig_n13), "C04-N15": ("sparse", optrig_n15)}
+OPEN_IDS = ("A-16", "C04-N04", "C04-N11", "C04-N15")
 OPTRIG = {fid: ALLCLASS[fid] for fid in OPEN_IDS}
 FIXED_CLASSES = {fid: v for fid, v in ALLCLASS.items() if fid not in OPEN_IDS}
 
